@@ -9,6 +9,7 @@ import (
 	"sort"
 	"strings"
 	"sync"
+	"sync/atomic"
 	"testing"
 	"time"
 
@@ -103,6 +104,9 @@ type tbed struct {
 	ci *clusters.ClusterInfo
 	mu sync.Mutex // makes "read the table + UpdateStatus" atomic against the harness changing the table
 	st *state
+	// syncMu serialises ClusterInfo.Sync calls, as the controller's single worker does
+	syncMu sync.Mutex
+	touch  int64
 }
 
 func (b *tbed) object() *proxyv1alpha1.UpstreamCluster {
@@ -161,11 +165,45 @@ func (b *tbed) resync() error {
 	b.mu.Lock()
 	obj := b.object()
 	b.mu.Unlock()
-	if err := b.ci.Sync(obj); err != nil {
+	b.syncMu.Lock()
+	err := b.ci.Sync(obj)
+	b.syncMu.Unlock()
+	if err != nil {
 		return err
 	}
 	b.pushHealth()
 	return nil
+}
+
+// noopResync delivers the cluster object again although neither its server list nor any disabled flag nor any policy
+// changed: an informer resync (same object) or, with touch, an update of fields that have nothing to do with endpoints
+// (an annotation that is not the feature-gate one, the logging mode, a flow-control schema). The ready set of every
+// policy is the same before and after, so picks around it are still "consecutive picks while the ready set is stable".
+func (b *tbed) noopResync(touch bool) error {
+	b.mu.Lock()
+	obj := b.object()
+	b.mu.Unlock()
+	if touch {
+		n := atomic.AddInt64(&b.touch, 1)
+		obj.Annotations = map[string]string{"verif.example/touched": fmt.Sprint(n)}
+		switch n % 3 {
+		case 0:
+			obj.Spec.Logging.Mode = proxyv1alpha1.LogOn
+		case 1:
+			obj.Spec.FlowControl.Schemas = []proxyv1alpha1.FlowControlSchema{{Name: "unused", FlowControlSchemaConfiguration: proxyv1alpha1.FlowControlSchemaConfiguration{MaxRequestsInflight: &proxyv1alpha1.MaxRequestsInflightFlowControlSchema{Max: int32(100 + n%50)}}}}
+		}
+	}
+	b.syncMu.Lock()
+	defer b.syncMu.Unlock()
+	return b.ci.Sync(obj)
+}
+
+// resyncOpt: no-op re-syncs delivered during a batch. every>0: the single picker delivers one after every `every` picks
+// (sequentially between picks); concurrent: a separate goroutine keeps delivering them while the pickers pick.
+type resyncOpt struct {
+	every      int
+	concurrent bool
+	touch      bool
 }
 
 func (b *tbed) close() { b.ci.Stop() }
@@ -183,6 +221,8 @@ type pickLog struct {
 	counts   map[string]int
 	seq      []string // only for single-picker batches
 	errs     int
+	resyncs  int
+	syncErr  string
 	firstErr string
 	panics   int
 	panicMsg string
@@ -191,12 +231,37 @@ type pickLog struct {
 // runBatch makes exactly n picks on policy p with `pickers` goroutines and returns after all of them finished, so the
 // picks of consecutive batches are consecutive picks. fresh: obtain a new picker through MatchAttributes for every
 // pick (as every real request does) instead of one per goroutine.
-func runBatch(b *tbed, res string, n, pickers int, fresh bool, ops *[]porcupine.Operation, index map[string]int) *pickLog {
+func runBatch(b *tbed, res string, n, pickers int, fresh bool, ops *[]porcupine.Operation, index map[string]int, rs resyncOpt) *pickLog {
 	if pickers < 1 {
 		pickers = 1
 	}
 	if pickers > n && n > 0 {
 		pickers = n
+	}
+	var resyncs int64
+	var syncErr atomic.Value
+	doResync := func(touch bool) {
+		if err := b.noopResync(touch); err != nil {
+			syncErr.Store(err.Error())
+		}
+		atomic.AddInt64(&resyncs, 1)
+	}
+	stopSync := make(chan struct{})
+	var swg sync.WaitGroup
+	if rs.concurrent {
+		swg.Add(1)
+		go func() {
+			defer swg.Done()
+			for i := 0; ; i++ {
+				select {
+				case <-stopSync:
+					return
+				default:
+				}
+				doResync(rs.touch && i%2 == 0)
+				time.Sleep(time.Duration(10+i%7*15) * time.Microsecond)
+			}
+		}()
 	}
 	logs := make([]*pickLog, pickers)
 	opss := make([][]porcupine.Operation, pickers)
@@ -244,6 +309,9 @@ func runBatch(b *tbed, res string, n, pickers int, fresh bool, ops *[]porcupine.
 					lg.counts[ep.Endpoint]++
 					if pickers == 1 {
 						lg.seq = append(lg.seq, ep.Endpoint)
+						if rs.every > 0 && i%rs.every == rs.every-1 {
+							doResync(rs.touch && (i/rs.every)%2 == 0)
+						}
 					}
 					if ops != nil {
 						out, ok := index[ep.Endpoint]
@@ -258,7 +326,12 @@ func runBatch(b *tbed, res string, n, pickers int, fresh bool, ops *[]porcupine.
 	}
 	close(start)
 	wg.Wait()
-	total := &pickLog{counts: map[string]int{}}
+	close(stopSync)
+	swg.Wait()
+	total := &pickLog{counts: map[string]int{}, resyncs: int(atomic.LoadInt64(&resyncs))}
+	if e, _ := syncErr.Load().(string); e != "" {
+		total.syncErr = e
+	}
 	for g, lg := range logs {
 		for k, v := range lg.counts {
 			total.counts[k] += v
@@ -288,6 +361,14 @@ func mode(pickers int) string {
 	return "concurrent"
 }
 
+// modeOf adds the scenario feature "no-op re-syncs were delivered during the batch".
+func modeOf(pickers int, lg *pickLog) string {
+	if lg.resyncs > 0 {
+		return mode(pickers) + "+noop-resync"
+	}
+	return mode(pickers)
+}
+
 func fact(k int) int {
 	f := 1
 	for i := 2; i <= k; i++ {
@@ -305,6 +386,7 @@ type batchWitness struct {
 	Fresh   bool           `json:"fresh_picker_per_pick"`
 	Counts  map[string]int `json:"counts"`
 	Errors  int            `json:"errors"`
+	Resyncs int            `json:"noop_resyncs_delivered_during_the_picks"`
 	Detail  string         `json:"detail,omitempty"`
 	Case    string         `json:"case"`
 }
@@ -314,7 +396,11 @@ func judge(r *vkit.R, st *state, p int, n, pickers int, fresh bool, lg *pickLog,
 	ready := st.readyList(p)
 	k := len(ready)
 	subset := len(st.Policies[p].Subset) > 0
-	w := batchWitness{State: st.clone(), Policy: p, Ready: ready, N: n, Pickers: pickers, Fresh: fresh, Counts: lg.counts, Errors: lg.errs, Case: caseID}
+	w := batchWitness{State: st.clone(), Policy: p, Ready: ready, N: n, Pickers: pickers, Fresh: fresh, Counts: lg.counts, Errors: lg.errs, Case: caseID, Resyncs: lg.resyncs}
+	if lg.syncErr != "" {
+		r.Inconclusive("ClusterInfo.Sync failed for a no-op re-sync: " + lg.syncErr)
+		return
+	}
 	if lg.panics > 0 {
 		w.Detail = lg.panicMsg
 		r.Violation("C14/pick/panic", fmt.Sprintf("Pop()/MatchAttributes panicked %d times: %s", lg.panics, lg.panicMsg), w)
@@ -351,7 +437,7 @@ func judge(r *vkit.R, st *state, p int, n, pickers int, fresh bool, lg *pickLog,
 				if c == 0 && n >= k {
 					cls = "starved"
 				}
-				r.Violation(fmt.Sprintf("C14/subset/%s/%s", cls, mode(pickers)),
+				r.Violation(fmt.Sprintf("C14/subset/%s/%s", cls, modeOf(pickers, lg)),
 					fmt.Sprintf("subset policy, %d ready endpoints, %d consecutive picks by %d picker(s): %s was chosen %d times, allowed %d..%d; counts %v", k, n, pickers, e, c, lo, hi, lg.counts), w)
 				return
 			}
@@ -366,7 +452,7 @@ func judge(r *vkit.R, st *state, p int, n, pickers int, fresh bool, lg *pickLog,
 				}
 				if len(seen) != k {
 					w.Detail = fmt.Sprintf("picks %d..%d: %v", i, i+k-1, lg.seq[i:i+k])
-					r.Violation("C14/subset/window/sequential",
+					r.Violation("C14/subset/window/"+modeOf(1, lg),
 						fmt.Sprintf("subset policy, %d ready endpoints: the %d consecutive picks starting at pick %d are %v (an endpoint repeated, another skipped)", k, k, i, lg.seq[i:i+k]), w)
 					return
 				}
@@ -391,7 +477,7 @@ func judge(r *vkit.R, st *state, p int, n, pickers int, fresh bool, lg *pickLog,
 			if lg.counts[e] == 0 {
 				cls = "starved"
 			}
-			r.Violation(fmt.Sprintf("C14/nosubset/%s/%s", cls, mode(pickers)),
+			r.Violation(fmt.Sprintf("C14/nosubset/%s/%s", cls, modeOf(pickers, lg)),
 				fmt.Sprintf("policy without subset, %d ready endpoints, %d consecutive picks by %d picker(s): %s was chosen %d times, N/k=%.1f, allowed deviation %d (=k!); counts %v", k, n, pickers, e, lg.counts[e], float64(n)/float64(k), fact(k), lg.counts), w)
 			return
 		}
@@ -413,7 +499,7 @@ func genState(g *vkit.Rand, maxServers int) *state {
 		st.Healthy[e] = !g.Chance(0.2)
 	}
 	for _, e := range st.Servers {
-		if g.Chance(0.12) {
+		if g.Chance(0.15) {
 			st.Disabled[e] = true
 		}
 	}
@@ -585,12 +671,38 @@ func histories(r *vkit.R) {
 						m := g.Range(1, 3)
 						acc := map[string]int{}
 						accN := 0
+						accResync := false
 						for bi := 0; bi < m; bi++ {
 							N := pickN(g, k, big)
 							P := g.PickInt(pickerChoices)
 							fresh := !subset || g.Bool()
 							caseID := fmt.Sprintf("histories case=%d step=%d policy=%d batch=%d", ci, s, p, bi)
-							lg := runBatch(b, snap.Policies[p].Res, N, P, fresh, nil, nil)
+							// no-op re-syncs inside the stable window: between the picks of a single picker, or concurrently
+							var rs resyncOpt
+							if g.Chance(0.45) {
+								rs.touch = g.Bool()
+								if P == 1 {
+									rs.every = g.Range(1, k+2)
+								} else {
+									rs.concurrent = true
+								}
+							}
+							if bi > 0 && g.Chance(0.3) {
+								if err := b.noopResync(g.Bool()); err != nil {
+									r.Inconclusive("ClusterInfo.Sync failed for a no-op re-sync: " + err.Error())
+									return
+								}
+								accResync = true
+							}
+							lg := runBatch(b, snap.Policies[p].Res, N, P, fresh, nil, nil, rs)
+							if lg.resyncs > 0 {
+								accResync = true
+								r.Count("batches_with_noop_resyncs", 1)
+								r.Count("noop_resyncs", lg.resyncs)
+								if len(snap.Disabled) > 0 && k >= 2 {
+									r.Count("batches_with_noop_resyncs_and_a_disabled_server_listed", 1)
+								}
+							}
 							r.Eval(1)
 							r.Count("picks", N)
 							if subset {
@@ -620,7 +732,11 @@ func histories(r *vkit.R) {
 								lo, hi := accN/k, (accN+k-1)/k
 								for _, e := range ready {
 									if acc[e] < lo || acc[e] > hi {
-										r.Violation("C14/subset/union-window/"+mode(P),
+										um := mode(P)
+										if accResync {
+											um += "+noop-resync"
+										}
+										r.Violation("C14/subset/union-window/"+um,
 											fmt.Sprintf("subset policy, %d ready endpoints: over %d consecutive picks made in %d back-to-back batches %s was chosen %d times, allowed %d..%d", k, accN, bi+1, e, acc[e], lo, hi),
 											batchWitness{State: snap, Policy: p, Ready: ready, N: accN, Pickers: P, Counts: acc, Case: caseID})
 										return
@@ -697,7 +813,14 @@ func linHistories(r *vkit.R) {
 		P := g.Range(2, 8)
 		N := g.Range(P, 60)
 		var ops []porcupine.Operation
-		lg := runBatch(b, "r0", N, P, g.Bool(), &ops, index)
+		var rs resyncOpt
+		if g.Chance(0.35) {
+			rs = resyncOpt{concurrent: true, touch: g.Bool()}
+		}
+		lg := runBatch(b, "r0", N, P, g.Bool(), &ops, index, rs)
+		if lg.resyncs > 0 {
+			r.Count("lin_histories_with_noop_resyncs", 1)
+		}
 		r.Eval(1)
 		r.Count("lin_histories", 1)
 		r.Count("lin_ops", len(ops))
@@ -779,7 +902,7 @@ func largeNoSubset(r *vkit.R) {
 			// N >= 2500 * k!: a fair random picker deviates by ~sqrt(N(k-1))/k which is > k! for these N when k<=4
 			N := tierN(r, 40000, 250000) + g.Intn(1000)
 			P := g.PickInt([]int{1, 2, 4, 8, 16, 32})
-			lg := runBatch(b, "r0", N, P, true, nil, nil)
+			lg := runBatch(b, "r0", N, P, true, nil, nil, resyncOpt{})
 			r.Eval(1)
 			r.Count("picks", N)
 			r.Count("large_nosubset_batches", 1)
@@ -823,8 +946,8 @@ func sharedCursor(r *vkit.R) {
 	defer b.close()
 	ca, cb := map[string]int{}, map[string]int{}
 	for i := 0; i < 100; i++ {
-		la := runBatch(b, "r0", 1, 1, true, nil, nil)
-		lb := runBatch(b, "r1", 1, 1, true, nil, nil)
+		la := runBatch(b, "r0", 1, 1, true, nil, nil, resyncOpt{})
+		lb := runBatch(b, "r1", 1, 1, true, nil, nil, resyncOpt{})
 		for e, c := range la.counts {
 			ca[e] += c
 		}
@@ -860,6 +983,7 @@ func TestCheck(t *testing.T) {
 			"(N in {k-1,k,k+1,multiples,random}) with 1..32 pickers; oracle per batch and per union of back-to-back batches: subset policy -> each ready endpoint floor(N/k)..ceil(N/k), " +
 			"every k-window of a single-picker sequence a permutation; no subset -> |count-N/k|<=k!; only ready endpoints of the policy returned; (2) <=60-pick concurrent " +
 			"histories checked with porcupine against fetch-and-increment mod k; (3) large-N batches on policies without subset, k<=4, fresh picker per pick. " +
+			"In 45% of the batches no-op re-syncs (same object, or an object whose annotation / logging mode / flow-control schema changed while servers, disabled flags and policies did not) are delivered through ClusterInfo.Sync between the picks of a single picker or concurrently with the pickers, and in 30% between back-to-back batches: the ready set is unchanged, so the same oracle applies. " +
 			"Non-trivial = k>=2 ready endpoints; distinct = hash(kind, ready list, servers, N, pickers). Every-statement schedule points in clusterinfo.go perturb the interleaving.")
 		r.Assume("a policy's picks are judged only while no other policy with the same ready set is picking (the implementation keeps one cursor per ready list, as the property's anchors describe)")
 		r.Assume("windows of consecutive picks are not extended across a spec or readiness change of the cluster (a server-list change restarts the cursors)")
@@ -883,6 +1007,7 @@ func TestCheck(t *testing.T) {
 		r.Require(r.Counter("batches_subset") >= int64(tierN(r, 300, 1800)), "too few subset batches evaluated")
 		r.Require(r.Counter("batches_concurrent") >= int64(tierN(r, 150, 900)), "too few concurrent batches evaluated")
 		r.Require(r.Counter("lin_histories") >= int64(tierN(r, 120, 2400)), "too few linearizability histories")
+		r.Require(r.Counter("batches_with_noop_resyncs_and_a_disabled_server_listed") >= int64(tierN(r, 80, 500)), "too few batches with no-op re-syncs on a cluster that lists a disabled server")
 		r.Require(r.Counter("lin_ops_overlapping_another") > 0, "no overlapping picks were observed in the linearizability histories")
 		r.Require(r.Counter("large_nosubset_batches") >= int64(tierN(r, 10, 60)), "too few large batches on policies without subset")
 		r.Require(r.Counter("batches_k2")+r.Counter("batches_k3")+r.Counter("batches_k4")+r.Counter("batches_k5")+r.Counter("batches_k6") >= int64(tierN(r, 200, 1200)), "too few batches with k>=2 ready endpoints")
